@@ -71,9 +71,11 @@ class HVT(Harness):
             else:
                 rule = False
             out.ob("log_iff_positive_decade", O.Iff(rule, alt[d]))
-            out.ob("plausible_bounds_map_to_unit", O.And(O.eq(tpl[0, d], -1, 1e-9), O.eq(tpu[0, d], 1, 1e-9)))
-            out.ob("internal_box_contains_unit_box", O.And(O.le(tl[0, d], -1 + 1e-12 if eng.concrete else -1), O.ge(tu[0, d], 1 - 1e-12 if eng.concrete else 1)))
+            out.ob("plausible_bounds_map_to_unit", O.And(O.le(abs(tpl[0, d] + 1), 1e-9), O.le(abs(tpu[0, d] - 1), 1e-9)))
+            out.ob("internal_box_contains_unit_box", O.And(O.le(tl[0, d], -1 + 1e-9), O.ge(tu[0, d], 1 - 1e-9)))
             out.ob("original_bounds_kept", O.And(O.eq(np.asarray(_raw(vt.orig_lb))[0, d], o_lb[0, d], 0.0), O.eq(np.asarray(_raw(vt.orig_ub))[0, d], o_ub[0, d], 0.0)))
+        if not p.get("points", True):
+            return out
         # points: x, x2 anywhere (inside, on, outside the box)
         x = sym_array(eng, "x", (1, D)); x2 = sym_array(eng, "xb", (1, D))
         if not eng.concrete:
@@ -92,6 +94,15 @@ class HVT(Harness):
             ins2 = O.And(O.le(o_lb[0, d], X2[0, d]), O.le(X2[0, d], o_ub[0, d]))
             out.ob("forward_output_in_internal_box", O.And(O.le_tol(tl[0, d], u[0, d]), O.le_tol(u[0, d], tu[0, d])))
             out.ob("inverse_output_in_original_box", O.And(O.le(o_lb[0, d], xo[0, d]), O.le(xo[0, d], o_ub[0, d])))
-            out.ob("monotone_increasing", O.Implies(O.And(ins, ins2, O.lt(X[0, d], X2[0, d])), O.lt(u[0, d], u2[0, d])))
-            out.ob("round_trip_identity", O.Implies(ins, O.eq(xr[0, d], X[0, d], 1e-9)))
+            out.ob("order_never_reversed", O.Implies(O.And(ins, ins2, O.lt(X[0, d], X2[0, d])), O.le(u[0, d], u2[0, d])))
+            fin_box = (isinstance(o_lb[0, d], SV) or math.isfinite(o_lb[0, d])) and (isinstance(o_ub[0, d], SV) or math.isfinite(o_ub[0, d]))
+            if fin_box:
+                width = o_ub[0, d] - o_lb[0, d]
+                out.ob("round_trip_within_1e-9_of_width", O.Implies(ins, O.le(abs(xr[0, d] - X[0, d]), 1e-9 * width)))
+            else:
+                out.ob("round_trip_within_1e-9_of_width", O.Implies(ins, O.le(abs(xr[0, d] - X[0, d]), 1e-9 * (1 + abs(X[0, d])))))
+            if all(isinstance(v, SV) for v in (o_lb[0, d], o_plb[0, d], o_pub[0, d], o_ub[0, d])):
+                # fully symbolic bounds: exact statements (strictly increasing, exact inverse) hold in real arithmetic
+                out.ob("strictly_increasing_exact", O.Implies(O.And(ins, ins2, O.lt(X[0, d], X2[0, d])), O.lt(u[0, d], u2[0, d])))
+                out.ob("round_trip_exact", O.Implies(ins, O.eq(xr[0, d], X[0, d], 1e-9)))
         return out
